@@ -1231,7 +1231,7 @@ class Body:
                     p = pl["p"]
                     deref = bool(p) and p[0] == "*"
                     rest = p[1:] if deref else p
-                    if not rest or not isinstance(rest[0], dict) or "f" not in rest[0]:
+                    if not rest or not isinstance(rest[0], dict) or rest[0].get("f") is None:
                         continue
                     root = self._struct_root(l, deref)
                     if root is None:
@@ -1273,6 +1273,9 @@ class Body:
             el = proj[i]
             if el == "*":
                 e = Expr("deref", [e])
+            elif "f" in el and el["f"] is None:
+                # a field named by the alignment layer without a position (component of a flattened group): symbolic
+                e = Expr("field", [e], name=str(el.get("name", "?")), adt=el.get("adt", ""), idx=None, ty=el.get("ty", ""))
             elif "f" in el:
                 s = e.strip() if e.k in ("ref", "deref") else e
                 sf = self._stored_field(pl, i, at, depth, seen) if (s.k == "agg" and depth < 60) else None
